@@ -5,6 +5,7 @@
    Tree: nodes 1..n in any order with par[k] < k; par[k] = 0 means top level; kind[k] = "g" is a
    parenthesised group, any other kind is a tag (leaf):
      p1, p2  two different plain tags        v    a value-taking tag with a legal value (and unit)
+     ext     a tag carrying a permitted extension (a rule-conforming construct: a warning at most)
      bad     a tag that breaks ONE per-tag rule (unknown tag, forbidden extension, missing required
              child, bad unit, bad value, stray placeholder, forbidden character, undeclared Def,
              wrongly valued Def, altered Def-expand): reported by the basic phase
